@@ -237,7 +237,7 @@ func newWorld(n int, names []string) *world {
 	for i := 0; i < n; i++ {
 		w.eps = append(w.eps, &domain.Endpoint{Name: fmt.Sprintf("e%d", i), URLString: epURL(i), Type: "ollama", Status: domain.StatusHealthy})
 	}
-	w.base = runtime.NumGoroutine()
+	w.base = vlib.SettledGoroutines()
 	w.reg = registry.NewUnifiedMemoryModelRegistry(vlib.QuietLogger(), staleConf, nil, nil)
 	w.svc = discovery.NewModelDiscoveryService(w.cl, &repo{w.eps}, w.reg, discovery.DiscoveryConfig{Timeout: 2 * time.Second, ConcurrentWorkers: 3}, vlib.QuietLogger())
 	if rr, err := registry.NewModelRegistry(registry.RegistryConfig{Type: "memory", EnableUnifier: false}, vlib.QuietLogger()); err == nil {
